@@ -145,7 +145,7 @@ def runQueue (q : CQ Nat) : List String → List String
 /-- `queuelong <cap> <n>`: additions 0 … n-1 with a snapshot after each number of additions
     listed in `checkpoints`. -/
 def queueCheckpoints (n : Nat) : List Nat :=
-  let ks := (List.range 18).filter (· ≥ 3)
+  let ks := (List.range 22).filter (· ≥ 3)
   ((ks.map (fun k => [2 ^ k - 1, 2 ^ k, 2 ^ k + 1])).flatten ++ [n]).filter (· ≤ n)
 
 def runQueueLong (cap : Int) (n : Nat) : String :=
